@@ -2497,9 +2497,8 @@ class WCS(GWCSAPIMixin):
         if isinstance(bounding_box, Bbox):
             bounding_box = bounding_box.bounding_box(order='F')
         if isinstance(bounding_box, list):
-            for index, bbox in enumerate(bounding_box):
-                if isinstance(bbox, Bbox):
-                    bounding_box[index] = bbox.bounding_box(order='F')
+            bounding_box = [bbox.bounding_box(order='F') if isinstance(bbox, Bbox) else bbox
+                            for bbox in bounding_box]
 
         # identify input axes:
         input_axes = []
